@@ -309,9 +309,9 @@ def replay_mask_search():
 def shift_mapping_obligations(prefix):
     """rtree_nn::wrapping_nn_iter's closure: query shift sigma -> None iff sigma == 0, else Some(-sigma)."""
     u = Unit("rtree_nn.rs", "wrapping_nn_iter")
-    cls = extract.find_nodes(u.fn["body"], lambda n: n.get("k") == "closure")
-    if len(cls) != 1: raise extract.Undecided("lost anchor: the map closure of wrapping_nn_iter")
-    cl = cls[0]
+    maps = extract.find_nodes(u.fn["body"], lambda n: n.get("k") == "mcall" and n["m"] == "map" and len(n["args"]) == 1 and n["args"][0].get("k") == "closure")
+    if len(maps) != 1: raise extract.Undecided("lost anchor: the map closure of wrapping_nn_iter")
+    cl = maps[0]["args"][0]
     if len(cl["params"]) != 1 or cl["params"][0]["k"] != "ptuple" or len(cl["params"][0]["elems"]) != 3:
         raise extract.Undecided("lost anchor: closure |(g, _distance, shift)|")
     sig = [real("sigma_%s" % c) for c in "xyz"]
